@@ -548,7 +548,7 @@ def fam_readers(sess):
     # ---- get_line_count
     fam = 'line_count'
     glc = prog.find_free('get_line_count')
-    for k in range(0, 4):
+    for k in range(0, 4 if sess.tier == "quick" else 6):
         box = {}
 
         def run2(ctx, k=k):
